@@ -116,7 +116,7 @@ func main() {
 		c.Floor("snapshot_calls", 50, c.Counter("snapshot_calls"))
 		c.Floor("snapshot_calls_overlapping_a_reload", 10, c.Counter("snapshot_calls_overlapping_a_reload"))
 	}
-	cleanTmp()
+	cleanTmp(c)
 	c.Finish()
 }
 
